@@ -47,3 +47,30 @@ def fmtBools (l : List Bool) : String := if l.isEmpty then "_" else String.join 
 def bad : String := "bad-op"
 
 end VOPy.Proto
+
+namespace VOPy.Proto
+/-- parse a decimal / scientific float literal such as `0.1`, `-3.5e-4`, `12` (for RealLike terms) -/
+def parseFloat (s : String) : Option Float :=
+  let s := s.trimAscii.toString
+  let (neg, s) := if s.startsWith "-" then (true, (s.drop 1).toString) else (false, s)
+  let (mant, ex) := match s.splitOn "e" with
+    | [m] => (m, some (0 : Int))
+    | [m, e] => (m, e.toInt?)
+    | _ => (s, none)
+  match ex with
+  | none => none
+  | some e =>
+    let parts := mant.splitOn "."
+    let r : Option (Nat × Nat) := match parts with
+      | [i] => i.toNat?.map (fun n => (n, 0))
+      | [i, f] => (if i.isEmpty then some 0 else i.toNat?).bind (fun n =>
+          if f.isEmpty then some (n, 0) else f.toNat?.map (fun k => (n * 10 ^ f.length + k, f.length)))
+      | _ => none
+    r.map (fun (n, d) =>
+      let e' : Int := e - d
+      let v := if e' ≥ 0 then Float.ofScientific n false e'.toNat else Float.ofScientific n true (-e').toNat
+      if neg then -v else v)
+/-- exact float from the rational `num/den` of `as_integer_ratio` (den a power of two): exact -/
+def ratToFloat (r : Rat) : Float :=
+  Float.ofInt r.num / Float.ofNat r.den
+end VOPy.Proto
